@@ -70,7 +70,7 @@ def cmd_check(prop, tier):
         drv.post(agg, pctx)
         pool.merge_partial(agg, pctx.dump(), len(tasks))
 
-    known = findings.load(prop)
+    known = [] if os.environ.get("VERIF_NO_KNOWN") else findings.load(prop)      # maintenance switch: see every group as new
     exit_code = 0
     lines = []
     # 1. re-observe every listed known finding through its witness
@@ -83,10 +83,7 @@ def cmd_check(prop, tier):
         if not det:
             agg["errors"].append(f"known-finding witness not deterministic: {e['text']}")
         if violated:
-            lines.append(f"KNOWN-FINDING: property={prop} {e['text']}")
             known_seen.append(e["text"])
-        else:
-            lines.append(f"KNOWN-FINDING-GONE: property={prop} {e['text']}")
     # 2. triage explored violations
     new_viol, matched = [], {}
     for v in sorted(agg["viol"].values(), key=lambda v: tuple(v["rank"])):
@@ -95,6 +92,15 @@ def cmd_check(prop, tier):
             matched[m["text"]] = matched.get(m["text"], 0) + v["count"]
         else:
             new_viol.append(v)
+    for e in kn:
+        # a listed finding is reported when its witness still fails or the exploration met it again
+        if e["text"] in known_seen or e["text"] in matched:
+            lines.append(f"KNOWN-FINDING: property={prop} {e['text']}")
+            if e["text"] not in known_seen:
+                known_seen.append(e["text"])
+                lines.append(f"NOTE: the stored witness of this finding no longer fails (the exploration still meets it): refresh it in known_findings.json")
+        else:
+            lines.append(f"KNOWN-FINDING-GONE: property={prop} {e['text']}")
     reported = 0
     from concurrent.futures import ThreadPoolExecutor
     with ThreadPoolExecutor(8) as ex:
